@@ -293,8 +293,9 @@ def execute(run):
                 break
         elif op['op'] == 'burst':
             for _ in range(op['k']):
-                proto = _check_call(ctx, run, model, fam, op['n'], subject)
-                if proto in ('raised', 'badshape', 'badrange') or ctx.violations:
+                proto = _check_call(ctx, run, model, fam, op['n'], subject,
+                                    run.get('how') == 'param_numpy')
+                if proto in ('raised', 'badshape', 'badrange', 'refused') or ctx.violations:
                     break
             ctx.nontrivial = True
             ctx.probes['burst_of_tiny_calls'] += 1
